@@ -442,12 +442,27 @@ class BodyAn:
         """[(bb, cls, detail)] for every assignment of the return place `_0`.
         cls: ok | err | residual | unit | other"""
         out = []
+        # locals whose value is handed to `_0` by a plain move / copy carry the return value (`let r = ..; r`, and the
+        # return slot of an inlined helper): their assignments are return assignments
+        carriers = {0}
+        grew = True
+        while grew:
+            grew = False
+            for blk in self.b.blocks:
+                if blk.cleanup:
+                    continue
+                for s in blk.stmts:
+                    if s.kind == 'assign' and s.place.is_local() and s.place.local in carriers and s.rv.kind == 'use' and s.rv.ops[0].kind != 'const' \
+                            and not s.rv.ops[0].place.proj and s.rv.ops[0].place.local not in carriers and s.rv.ops[0].place.local > self.b.arg_count:
+                        carriers.add(s.rv.ops[0].place.local); grew = True
         for blk in self.b.blocks:
             if blk.cleanup:
                 continue
             for i, s in enumerate(blk.stmts):
-                if s.kind == 'assign' and s.place.local == 0 and s.place.is_local():
+                if s.kind == 'assign' and s.place.local in carriers and s.place.is_local():
                     rv = s.rv
+                    if rv.kind == 'use' and rv.ops[0].kind != 'const' and not rv.ops[0].place.proj and rv.ops[0].place.local in carriers:
+                        continue        # forwarding between carriers
                     cls = 'other'; det = repr(rv)
                     if rv.kind == 'agg' and rv.j['ak'] == 'adt':
                         v = rv.j['variant']
@@ -460,7 +475,7 @@ class BodyAn:
                         cls = 'unit'
                     out.append((blk.idx, cls, det))
             t = blk.term
-            if t.kind == 'call' and t.dest is not None and t.dest.local == 0 and t.dest.is_local():
+            if t.kind == 'call' and t.dest is not None and t.dest.local in carriers and t.dest.is_local():
                 names = t.callee_names()
                 if any(n.endswith('FromResidual::from_residual') or n.endswith('::from_residual') for n in names):
                     out.append((blk.idx, 'residual', 'from_residual'))
@@ -625,20 +640,41 @@ def sources(an, op, extra_through=(), limit=400, deep=False):
             sel = p.proj[0][1:]
         elif len(p.proj) >= 2 and p.proj[0].startswith('@') and p.proj[1].startswith('.'):
             sel = p.proj[1][1:]
-        key = (p.local, sel)
+        l = p.local
+        # `(*_r).k` where `_r = &_y` (possibly through moves) and `_y` is an aggregate built here: same as `_y.k`
+        # (the environment of a closure inlined into the body that created it)
+        if sel is None and len(p.proj) >= 2 and p.proj[0] == '*' and p.proj[1].startswith('.'):
+            base = l
+            for _ in range(4):
+                ds = an.defs(base)
+                if len(ds) == 1 and ds[0][0] == 'stmt' and ds[0][3].rv.kind == 'use' and ds[0][3].rv.ops[0].kind != 'const' and not ds[0][3].rv.ops[0].place.proj:
+                    base = ds[0][3].rv.ops[0].place.local; continue
+                break
+            ds = an.defs(base)
+            if len(ds) == 1 and ds[0][0] == 'stmt' and ds[0][3].rv.kind == 'ref' and not ds[0][3].rv.place.proj:
+                tgt = ds[0][3].rv.place.local
+                for _ in range(4):
+                    tds = an.defs(tgt)
+                    if len(tds) == 1 and tds[0][0] == 'stmt' and tds[0][3].rv.kind == 'use' and tds[0][3].rv.ops[0].kind != 'const' and not tds[0][3].rv.ops[0].place.proj:
+                        tgt = tds[0][3].rv.ops[0].place.local; continue
+                    break
+                tds = an.defs(tgt)
+                if tds and all(d[0] == 'stmt' and d[3].rv.kind == 'agg' and d[3].rv.j['ak'] in ('tuple', 'adt', 'closure') for d in tds):
+                    sel = p.proj[1][1:]
+                    l = tgt
+        key = (l, sel)
         for fo, fn_ in flds:
             out.add(('field', '%s.%s' % (fo, fn_)))
         if key in seen:
             continue
         seen.add(key)
-        l = p.local
         if sel is not None:
             ds = an.defs(l)
-            if ds and all(d[0] == 'stmt' and d[3].rv.kind == 'agg' and d[3].rv.j['ak'] in ('tuple', 'adt') for d in ds):
+            if ds and all(d[0] == 'stmt' and d[3].rv.kind == 'agg' and d[3].rv.j['ak'] in ('tuple', 'adt', 'closure') for d in ds):
                 done = True
                 for d in ds:
                     rv = d[3].rv
-                    names = [str(i) for i in range(len(rv.ops))] if rv.j['ak'] == 'tuple' else rv.j.get('fields', [])
+                    names = [str(i) for i in range(len(rv.ops))] if rv.j['ak'] in ('tuple', 'closure') else rv.j.get('fields', [])
                     if sel in names and len(names) == len(rv.ops):
                         work.append(rv.ops[names.index(sel)])
                     else:
@@ -789,3 +825,24 @@ def variants_at(an, bb, local):
                 reach_by.add(lab)
         names = reach_by if names is None else (names & reach_by)
     return names
+
+
+def result_matches(an, origin_pred):
+    """explicit `match r { Ok(..) => .., Err(..) => .. }` on a Result whose value derives (deep) from a call accepted by
+    origin_pred(name): [(switch blk, blocks only on the Ok arm, blocks only on the Err arm)]"""
+    from .facts import Operand
+    out = []
+    for blk in an.b.blocks:
+        t = blk.term
+        if t.kind != 'switch' or blk.cleanup or t.j.get('adt') != 'std::result::Result' or 'on' not in t.j:
+            continue
+        src = sources(an, Operand({'c': t.j['on']}), deep=True)
+        if not any(s[0] == 'call' and origin_pred(s[1]) for s in src):
+            continue
+        arms = dict(t.switch_arms())
+        if 'Ok' not in arms or 'Err' not in arms:
+            continue
+        okr = an.reach([arms['Ok']], ('normal',), avoid=[arms['Err']])
+        err = an.reach([arms['Err']], ('normal',), avoid=[arms['Ok']])
+        out.append((blk, okr - err, err - okr))
+    return out
